@@ -190,6 +190,7 @@ def classify(rep: Report, fails, prefixes: tuple[str, ...], pid: str, keyfn):
     """ENV.* -> machinery; own prefixes -> violations; M.* and the other properties' -> evidence only"""
     other = {}
     n_m = 0
+    m_examples = []
     for f in fails:
         bad = f["bad"]
         env = [b for b in bad if b.startswith("ENV.")]
@@ -199,13 +200,16 @@ def classify(rep: Report, fails, prefixes: tuple[str, ...], pid: str, keyfn):
         mine = [b for b in bad if b.startswith(prefixes)]
         if any(b.startswith("M.") for b in bad):
             n_m += 1
+            if len(m_examples) < 5:
+                m_examples.append({"id": f["id"], "clauses": [b for b in bad if b.startswith("M.")]})
         for b in bad:
             if not b.startswith(prefixes) and not b.startswith("M."):
                 other[b] = other.get(b, 0) + 1
         if mine:
             key = keyfn(f["id"], mine)
             rep.violation(key, f"{f['id']}: failing clauses {mine}", {"event": f["id"], "clauses": bad})
-    rep.cov["model_agreement"] = {"events_where_library_output_differs_from_Decode_tla": n_m}
+    rep.cov["model_agreement"] = {"events_where_library_output_differs_from_the_reference_model": n_m,
+                                  "examples": m_examples}
     rep.cov["other_properties_clauses_failing_on_same_events"] = other
 
 
